@@ -43,6 +43,16 @@ impl SymbolTable {
         ensures s == sym_define_symbol(*old(self), name@), *final(self) == sym_after_define(*old(self), name@)
     { unimplemented!() }
 }
+// R11: std::mem::take on a Vec (no vstd specification): returns the old value and leaves an empty Vec behind
+#[verifier::external_body]
+pub fn mem_take_vec<T>(v: &mut Vec<T>) -> (r: Vec<T>) ensures r@ == old(v)@, final(v)@.len() == 0 { std::mem::take(v) }
+
+pub uninterp spec fn sym_reset(t: SymbolTable) -> SymbolTable;
+impl SymbolTable {
+    // NOT DECIDED (src/symbols.rs Context internals): truncates to the global context's outermost scope
+    #[verifier::external_body]
+    pub fn reset_to_global(&mut self) ensures *final(self) == sym_reset(*old(self)) { unimplemented!() }
+}
 pub uninterp spec fn sym_define_symbol(t: SymbolTable, name: Seq<char>) -> Symbol;
 pub uninterp spec fn sym_after_define(t: SymbolTable, name: Seq<char>) -> SymbolTable;
 
